@@ -76,15 +76,20 @@ func (store *Store) pathForKey(key string) string {
 	shards := make([]string, 1, 4) // future work: would be nice if we could reuse this rather than fresh allocating.
 	shards[0] = store.basepath     // not part of the path shard, but will be a param to Join, so, practical to put here.
 	//shards[1] = storageDir       // not part of the path shard, but will be a param to Join, so, practical to put here.
+	if store.escapingFunc != nil {
+		// Keys are arbitrary bytes (slashes, "..", NUL, ...): only their escaped form may become a file name.
+		key = store.escapingFunc(key)
+	}
 	store.shardingFunc(key, &shards)
 	return filepath.Join(shards...)
 }
 
 // Has implements go-ipld-prime/storage.Storage.Has.
 func (store *Store) Has(ctx context.Context, key string) (bool, error) {
-	_, err := os.Stat(store.pathForKey(key))
+	fi, err := os.Stat(store.pathForKey(key))
 	if err == nil {
-		return true, nil
+		// (A directory is never a stored block: e.g. the empty key maps onto a shard directory.)
+		return !fi.IsDir(), nil
 	}
 	if os.IsNotExist(err) {
 		return false, nil
@@ -107,6 +112,10 @@ func (store *Store) Put(ctx context.Context, key string, content []byte) error {
 	// We can't improve much on what we get by wrapping the stream interface;
 	//  we always end up using a streaming action on the very bottom because that's how file writing works
 	//   (especially since we care about controlling the write flow enough to be able to do the atomic move at the end).
+	if key == "" {
+		// (The empty key is what tells a WriteCommitter to abandon the write; it cannot name a block.)
+		return fmt.Errorf("fsstore: cannot put: the empty string is not a valid key")
+	}
 	wr, wrCommitter, err := store.PutStream(ctx)
 	if err != nil {
 		return err
